@@ -288,6 +288,11 @@ def tables() -> dict:
     t["variantRegisteredAfterBuild"] = after_build
     # parse_timezone: does the pattern have to match the WHOLE string (fullmatch) or may `$` stop before a trailing newline?
     t["substAnnotatedRecursive"] = _subst_annotated_recursive()
+    # helpers.resolve_type_params: are the arguments of C[...] matched with the class's own parameter list?
+    t["typeParamsFollowOwnList"] = False
+    for node in ast.walk(ast.parse(_src("mashumaro/core/meta/helpers.py"))):
+        if isinstance(node, ast.FunctionDef) and node.name == "resolve_type_params":
+            t["typeParamsFollowOwnList"] = "__parameters__" in ast.unparse(node)
     # unpack.py, dispatcher of a discriminated union: is only the LOOKUP of the variant's unpacker inside the
     # `try … except (KeyError, AttributeError)` (the call being made after it), or lookup and call together?
     usrc = _src("mashumaro/core/meta/types/unpack.py")
@@ -381,6 +386,7 @@ def render(t: dict) -> str:
     L.append("def substAnnotatedRecursive : Bool := " + ("true" if t["substAnnotatedRecursive"] else "false"))
     L.append("/-- builder._add_pack_method_lines: an instance of another class is packed by a method compiled for its own class -/")
     L.append("def dispatchGuardsLookupOnly : Bool := " + ("true" if t["dispatchGuardsLookupOnly"] else "false"))
+    L.append("def typeParamsFollowOwnList : Bool := " + ("true" if t["typeParamsFollowOwnList"] else "false"))
     L.append("def packOwnerGuard : Bool := " + ("true" if t["packOwnerGuard"] else "false"))
     L.append("def packOwnerGuardPlain : Bool := " + ("true" if t["packOwnerGuardPlain"] else "false"))
     L.append("")
